@@ -60,6 +60,7 @@ func (a *Application) proxyHandler(w http.ResponseWriter, r *http.Request) {
 	// so its StripPrefix is a no-op. This mirrors providerProxyHandler (line 100).
 	r.URL.Path = pr.targetPath
 
+	w = &responseStartTracker{ResponseWriter: w}
 	err = a.executeProxyRequest(ctx, w, r, endpoints, pr)
 
 	a.logRequestResult(pr, err)
@@ -344,9 +345,43 @@ func (a *Application) handleEndpointError(w http.ResponseWriter, pr *proxyReques
 // content-type check prevents double-writing response after partial stream
 // (learned this the hard way when users got html error messages appended to their json)
 func (a *Application) handleProxyError(w http.ResponseWriter, err error) {
+	// a backend response need not carry a Content-Type: when the handler tracked the writer,
+	// "has anything been written" is known and not guessed from headers
+	if tracker, ok := w.(*responseStartTracker); ok && tracker.started {
+		return
+	}
 	if w.Header().Get(constants.HeaderContentType) == "" {
 		http.Error(w, fmt.Sprintf("Proxy error: %v", err), http.StatusBadGateway)
 	}
+}
+
+// responseStartTracker records whether a status line or body bytes have been handed to the
+// client's ResponseWriter, so that no error text is appended to a response already under way.
+type responseStartTracker struct {
+	http.ResponseWriter
+	started bool
+}
+
+func (t *responseStartTracker) WriteHeader(statusCode int) {
+	t.started = true
+	t.ResponseWriter.WriteHeader(statusCode)
+}
+
+func (t *responseStartTracker) Write(b []byte) (int, error) {
+	t.started = true
+	return t.ResponseWriter.Write(b)
+}
+
+// Flush keeps http.Flusher available to the proxy engines' streaming paths.
+func (t *responseStartTracker) Flush() {
+	if f, ok := t.ResponseWriter.(http.Flusher); ok {
+		f.Flush()
+	}
+}
+
+// Unwrap lets http.ResponseController reach the underlying writer.
+func (t *responseStartTracker) Unwrap() http.ResponseWriter {
+	return t.ResponseWriter
 }
 
 func (a *Application) stripRoutePrefix(ctx context.Context, path string) string {
